@@ -312,7 +312,7 @@ fn udp_matrix(seed: u64, thorough: bool) -> Vec<(Proto, Transport, usize)> {
     for (j, t) in ALL_TRANSPORTS.iter().enumerate() {
         for sec in [3u8, 4] {
             if thorough || (j + sec as usize + seed as usize) % 3 == 0 {
-                v.push((Proto::Vmess(sec), *t, 1));
+                v.push((Proto::Vmess(sec), *t, 2));
             }
         }
     }
@@ -359,10 +359,50 @@ async fn one_config(a: Args, idx: usize, proto: Proto, transport: Transport, use
     let k_apps = *rng.pick(&[1usize, 4, if a.thorough { 16 } else { 6 }]);
     let sizes = [HDR, 64, 512, 1200, 1472, 2000, 2048, 4096, 16000, 32000];
     let per_app = if a.thorough { 60 } else { 24 };
+    // a second client PROCESS, configured as another user of the same server: its applications share the targets with
+    // the first client's; nothing may cross between the two clients, their sessions or their users
+    let mut second: Option<Node> = None;
+    let mut second_port = 0u16;
+    let other = match proto {
+        Proto::Ss(_) if d.cfg.users.len() >= 2 => d.cfg.client_user.map(|u| {
+            let mut c = d.cfg.clone();
+            c.client_user = Some((u + 1) % c.users.len());
+            c
+        }),
+        Proto::Vmess(_) if d.cfg.uuids.len() >= 2 => {
+            let mut c = d.cfg.clone();
+            c.client_uuid = (c.client_uuid + 1) % c.uuids.len();
+            Some(c)
+        }
+        _ => None,
+    };
+    if let Some(cfg2) = other {
+        let mut d2 = d.clone();
+        d2.cfg = cfg2;
+        d2.client_port = free_port();
+        second_port = d2.client_port;
+        let (dj, ddir, t, lvl) = (d2.client_json(), d2.dir.clone(), format!("c02-{idx}-second"), d2.log_level.clone());
+        second = tokio::task::spawn_blocking(move || {
+            let mut n = start_node("client", &dj, &ddir, &t, 2, &lvl, None, None).ok()?;
+            wait_ready(&mut n, Some(second_port), Some(second_port), Duration::from_secs(15)).ok()?;
+            Some(n)
+        })
+        .await
+        .unwrap();
+        if second.is_some() {
+            rep.mon("configurations_with_a_second_client_process", 1);
+        }
+    }
     let mut apps = Vec::new();
     for app in 0..k_apps {
         let plan: Vec<(usize, usize)> = (0..per_app).map(|k| (rng.below(n_targets as u64) as usize, sizes[(k + app) % sizes.len()])).collect();
         apps.push(tokio::spawn(run_app(nonce, app as u16, d.client_port, tinfo.clone(), plan, replies_per, Duration::from_secs(8))));
+    }
+    if second.is_some() {
+        for app in 0..k_apps.min(4) {
+            let plan: Vec<(usize, usize)> = (0..per_app).map(|k| (rng.below(n_targets as u64) as usize, sizes[(k + app + 3) % sizes.len()])).collect();
+            apps.push(tokio::spawn(run_app(nonce, 100 + app as u16, second_port, tinfo.clone(), plan, replies_per, Duration::from_secs(8))));
+        }
     }
     if idx < 2 {
         rep.sample(json!({"config": cfgname, "applications": k_apps, "targets": n_targets, "replies_per_datagram": replies_per, "sizes": sizes, "datagram_id": "run nonce | application | target | sequence | length | kind, filled from a PRNG keyed by the id"}));
@@ -372,6 +412,8 @@ async fn one_config(a: Args, idx: usize, proto: Proto, transport: Transport, use
     for (app, h) in apps.into_iter().enumerate() {
         let Ok(r) = h.await else { continue };
         sent_total += r.sent.len() as u64;
+        rep.evaluations += r.sent.len() as u64;
+        rep.distinct.insert(crate::report::hash_of(&(idx, "app", app)));
         rep.mon("datagrams_sent", r.sent.len() as u64);
         rep.mon("replies_matched", r.replies.values().map(|c| *c as u64).sum());
         for p in r.problems.iter() {
@@ -458,6 +500,7 @@ async fn one_config(a: Args, idx: usize, proto: Proto, transport: Transport, use
         }
     }
     drop(targets);
+    drop(second);
     drop(pair);
     let _ = std::fs::remove_dir_all(&dir);
     rep
